@@ -70,6 +70,22 @@ fn build_state(k: usize) -> Memfs {
         let _ = m.mkdir_p("/é/€");
         let _ = m.write_all("/ ", b"space");
     }
+    if k == 3 {
+        // deeper than the traversal's cap of 50 open directories: an empty directory at the bottom, a file and a
+        // link half way down
+        let mut p = String::from("/deep");
+        for i in 0..70 {
+            p.push_str("/d");
+            if i == 55 {
+                let _ = m.mkdir_p(&p);
+                let _ = m.write_all(format!("{}/f", p), b"x");
+                let _ = m.mkdir_p(format!("{}/empty", p));
+            }
+        }
+        let _ = m.mkdir_p(&p);
+        let _ = m.symlink("/deep/d/d/l", "/a/f");
+        return m;
+    }
     if k >= 2 {
         let _ = m.set_cwd("/a/b");
         let _ = m.symlink("/a/b/up", "/a");
@@ -409,6 +425,14 @@ fn c12(ctx: &Ctx, rep: &mut Report) {
             }
         }
         handle_scripts(rep);
+        // the deep tree: every single-path method on its root, its middle and its bottom, two-path methods out of it
+        let bottom = format!("/deep{}", "/d".repeat(70));
+        let middle = format!("/deep{}", "/d".repeat(56));
+        for p in ["/deep", middle.as_str(), bottom.as_str(), "/"] {
+            run_ops(3, &ops_one(p), &format!("deep-tree:{}", if p == "/deep" { "root" } else if p == "/" { "fs-root" } else if p.len() > 150 { "bottom" } else { "middle" }), rep);
+            run_ops(3, &ops_two(p, "/copy"), "deep-tree,absent", rep);
+            run_ops(3, &ops_two(p, "/a"), "deep-tree,dir", rep);
+        }
     }
     if rep.want_sample() {
         rep.sample(J::obj(vec![("hostile_strings_exhaustive_up_to", J::Int(max1 as i64)), ("examples", J::strs(&singles[singles.len() / 2..singles.len() / 2 + 6])), ("pair_strings_up_to", J::Int(max2 as i64))]));
